@@ -207,6 +207,40 @@ Definition spec_navigate (base ref result : str) : bool :=
   | None => false
   end.
 
+(* ---- the query at the level of (key, value) pairs ---------------------------------
+   "k=v" pairs separated by "&", in order, repeated keys kept ("k" alone has no
+   value; an empty pair carries no key).  RFC 3986 5.2.2 gives T.query as a
+   whole: the reference's, or - only when the reference has neither a path nor a
+   query - the base's.  On pair lists that says: the result has exactly the
+   pairs of that one query, same order, same multiplicity; pairs of the other
+   query never leak in. *)
+Definition query_pairs (q : option str) : list (str * option str) :=
+  match q with
+  | None => []
+  | Some s =>
+      map (fun p => let '(k, found, v) := partition_at EQS p in (k, if found then Some v else None))
+          (filter nonempty (split AMP s))
+  end.
+
+Definition target_query_pairs (B R : uri) : list (str * option str) :=
+  match scheme R, authority R, path R, query R with
+  | None, None, [], None => query_pairs (query B)          (* inherited *)
+  | _, _, _, _ => query_pairs (query R)                    (* the reference's own (possibly none) *)
+  end.
+
+Definition pairs_eqb (a b : list (str * option str)) : bool :=
+  list_eqb (pair_eqb str_eqb (option_eqb str_eqb)) a b.
+
+Definition spec_query (base ref result : str) : bool :=
+  pairs_eqb (query_pairs (query (parse result))) (target_query_pairs (parse base) (parse ref)).
+
+(* ... and after a second navigation, against the target of the first *)
+Definition spec_query_chain (base ref1 ref2 result : str) : bool :=
+  match target base ref1 with
+  | Some t1 => spec_query t1 ref2 result
+  | None => false
+  end.
+
 (* chained navigation = resolving step by step *)
 Definition spec_chain (base ref1 ref2 result : str) : bool :=
   match target base ref1 with
